@@ -123,6 +123,10 @@ def load(
     config = config._replace(global_config=gc, sim=sim_cfg, dispatcher=disp, scenario_output_directory=out)
     networkx_shim()
     rp = load_simulation(config, tuple(igens) if igens is not None else None, None)
+    # as hive_cosim.load_scenario does: the handler through which a co-simulation user reads the charge events
+    from nrel.hive.reporting.handler.vehicle_charge_events_handler import VehicleChargeEventsHandler
+
+    rp.e.reporter.add_handler(VehicleChargeEventsHandler())
     return rp
 
 
